@@ -36,13 +36,17 @@ CLAIMS = {
         "callbacks and finalizers, task life cycles, the host's silent moves): C08_before_earlier (a callback registered "
         "before a task was started runs only after the task and its context have finished), C08_none_left, "
         "C08_cancel_only_when_told, C08_action_once, C08_action_called, C08_snapshot, C08_crash_surfaces, C08_outcome_exact, "
-        "C08_stack_suffix. Correspondence (mode T): generated set-up programs (0-4 service tasks x 0-6 callbacks, all three "
+        "C08_stack_suffix. Service tasks started by a teardown callback while the owner is already being torn down "
+        "(`Setup.late`, label lateStarted): C08_late_not_before, _started (its finalizer goes on top of what is still to "
+        "run), _before_earlier (whenever another callback runs, every late task started so far has completely finished), "
+        "_none_left, _observed, _snapshot. Correspondence (mode T): generated set-up programs (0-4 service tasks x 0-6 callbacks, all three "
         "teardown actions, tasks ending by themselves / needing clean-up / crashing, root and nested owners, tasks started "
         "while another context is current) run on the real asphalt under a virtual clock on both back-ends; the observed "
         "trace must be a run of the model.",
         "Hypothesis kept explicit: the teardown is not itself cancelled (no task crashed); after a crash only 'the exception "
         "reaches the caller' is required (C08_crash_surfaces). Delivery of cancellation and TaskGroup.start are anyio's. "
-        "Task and callback ids are distinct (DistinctIds, true of every generated program).",
+        "Task and callback ids are distinct and a callback starts at most one task (DistinctIds, true of every "
+        "generated program).",
         "8/C08",
     ),
     "C09": (
